@@ -20,7 +20,10 @@ const spEntity = "https://sp.example/metadata"
 const attrLoc = "https://idp.example/saml/attribute"
 const basic = "urn:oasis:names:tc:SAML:2.0:attrname-format:basic"
 
-type ReqAttr struct{ Name, Format string }
+type ReqAttr struct {
+	Name, Format string
+	NoName       bool // the Name attribute is left out altogether (Name is then "")
+}
 
 type Scenario struct {
 	Mut         string     `json:"mut"`
@@ -78,7 +81,11 @@ func (s *Scenario) body() string {
 				sb.WriteString(`</saml:Subject>`)
 			}
 			for _, a := range s.Requested {
-				fmt.Fprintf(&sb, `<saml:Attribute Name="%s"`, idp.EscAttr(a.Name))
+				if a.NoName {
+					sb.WriteString(`<saml:Attribute`)
+				} else {
+					fmt.Fprintf(&sb, `<saml:Attribute Name="%s"`, idp.EscAttr(a.Name))
+				}
 				if a.Format != "" {
 					fmt.Fprintf(&sb, ` NameFormat="%s"`, idp.EscAttr(a.Format))
 				}
@@ -251,7 +258,10 @@ func Run(dir, tier string, seed int64) error {
 		},
 		func(s *Scenario) { s.Mut = "alg-unusable"; s.Alg = "http://example.org/unusable" },
 	}
-	reqPool := []ReqAttr{{"Email", basic}, {"Email", ""}, {"Email", "urn:fmt"}, {"UserName", basic}, {"groups", ""}, {"groups", "urn:fmt"}, {"groups", basic}, {"nosuch", basic}, {"role", ""}, {"x y", ""}}
+	reqPool := []ReqAttr{{Name: "Email", Format: basic}, {Name: "Email"}, {Name: "Email", Format: "urn:fmt"}, {Name: "UserName", Format: basic}, {Name: "groups"}, {Name: "groups", Format: "urn:fmt"},
+		{Name: "groups", Format: basic}, {Name: "nosuch", Format: basic}, {Name: "role"}, {Name: "x y"},
+		// requested attributes that can match nothing: empty or absent Name (they are requests all the same: the answer is then empty, not everything)
+		{Name: ""}, {Name: "", Format: basic}, {NoName: true}, {NoName: true, Format: basic}}
 	for id := 0; id < n; id++ {
 		s := &Scenario{ID: pick(r, []string{"_aq1", "id&1", "ü"}), Issuer: idp.S(spEntity), NameID: idp.S(pick(r, []string{"login", "user&name"})), Known: true, Alg: idp.RSASHA256, User: randUser(r)}
 		for k := r.Intn(4); k > 0; k-- {
@@ -259,6 +269,12 @@ func Run(dir, tier string, seed int64) error {
 		}
 		if r.Intn(5) == 0 && len(s.Requested) > 0 {
 			s.Requested = append(s.Requested, s.Requested[0]) // duplicate request entry
+		}
+		if r.Intn(8) == 0 { // only requests that designate nothing
+			s.Requested = nil
+			for k := 1 + r.Intn(2); k > 0; k-- {
+				s.Requested = append(s.Requested, pick(r, reqPool[len(reqPool)-4:]))
+			}
 		}
 		muts[id%len(muts)](s)
 		e := env(s.Alg)
